@@ -247,7 +247,7 @@ func genArgs(r *core.Rand, s *script) ([]cty.Value, []string) {
 }
 
 func (Driver) Run(c *core.Ctx) {
-	n := int64(c.N(6000, 400000))
+	n := int64(c.N(60000, 400000))
 	for i := int64(0); i < n; i++ {
 		if !c.Want(i) {
 			continue
